@@ -67,6 +67,8 @@ func runC30(c *core.Ctx) {
 	c.Rule("FMT4", "Myprintf verbs fit their arguments")
 	c.Rule("FMT5", "fields are printed in the order some production reads them")
 	c.Rule("FMT6", "node-typed fields are printed through their own printer")
+	c.Rule("FMT7", "the printer's string literal escapes are the ones the tokenizer decodes")
+	checkLiteralEscapes(c, "FMT7")
 	p := c.Prog
 	pkg := p.Pkg("parser/sqlparser")
 	if pkg == nil {
